@@ -23,7 +23,7 @@ TIERS = {
 }
 
 TOPICS = ('a', 'b', 'c', 'd', 'e', 'f', 'g', 'h')
-BOUNDS = (None, None, 0, 1, 50, 100, 250, 1000, 2500)
+BOUNDS = (None, None, 0, 1, 50, 100, 250, 1000, 2500, 0.5, 100.5, 1500, 70, 300)
 
 ###############################################################################
 # Property generation (activator always simple)
@@ -287,11 +287,13 @@ def payload(sim):
     return {'x': Fraction(sim.choose('px', 3)), 'y': Fraction(sim.choose('py', 3)), 'ok': sim.coin('pok')}
 
 
-def simulate(sim, pdesc, cfg, on_deliver):
+def simulate(sim, pdesc, cfg, on_deliver, extra_topic=None):
     """Build the system for this property and run it."""
     scope, act, term = pdesc['scope']
     pk, trig, beh, bound = pdesc['pattern']
     used = list(dict.fromkeys(topics_of(act) + topics_of(term) + topics_of(trig) + topics_of(beh)))
+    if extra_topic and extra_topic not in used:
+        used.append(extra_topic)
     extra = [t for t in TOPICS if t not in used]
     # swarm: which fault kinds are enabled in this run, and how hard
     fc = {
@@ -302,7 +304,7 @@ def simulate(sim, pdesc, cfg, on_deliver):
         'max_events': cfg['max_events'],
     }
     bus = Bus(sim, fc, on_deliver)
-    b = bound if bound is not None else sim.pick('pseudo_bound', (1, 50, 100, 1000))
+    b = int(bound) if bound is not None else sim.pick('pseudo_bound', (1, 50, 100, 1000))  # 0.5 ms -> 0, 100.5 ms -> 100
     horizon = sim.pick('horizon', (400, 2000, 6000, 20000))
     busy = sim.coin('busy', 0.3)  # a share of the runs has every publisher talk a lot
     # periodic / bursty publishers
@@ -401,15 +403,41 @@ def rebuild_through_api(ast):
     return ast.but(scope=scope, pattern=pat)
 
 
+def edit_through_api(ast, edit):
+    """Copy-with-changes on a disjunction: the first alternative of the event in the split position
+    (or of the other event) is replaced through `disjunction.but(event1=...)` by another simple
+    event. edit = {'topic': str, 'pred': text or None, 'where': 'split' | 'other'}"""
+    from hpl.ast.events import HplSimpleEvent
+    pat = ast.pattern
+    split_field = 'trigger' if pat.is_response else 'behaviour'
+    other_field = 'behaviour' if split_field == 'trigger' else 'trigger'
+    field = split_field if edit['where'] == 'split' else other_field
+    ev = getattr(pat, field)
+    if ev is None or not ev.is_event_disjunction:
+        field = split_field
+        ev = getattr(pat, field)
+    if ev is None or not ev.is_event_disjunction:
+        return ast
+    pred = build.parser('predicate').parse(edit['pred']) if edit.get('pred') else None
+    slot = 'event1' if ev.event1.is_simple_event else 'event2'
+    # keep the replaced alternative's alias: a name bound by only some alternatives would leave
+    # later references to it unbound on some paths (no documented meaning)
+    new_alt = HplSimpleEvent.publish(edit['topic'], predicate=pred, alias=getattr(ev, slot).alias)
+    ev2 = ev.but(**{slot: new_alt})
+    return ast.but(pattern=pat.but(**{field: ev2}))
+
+
 class Judge:
     """Holds P and its canonical form as monitor objects; checks a prefix."""
 
-    def __init__(self, text, renest=False):
+    def __init__(self, text, renest=False, edit=None):
         from hpl.rewrite import canonical_form
         try:
             self.ast = build.parser('property').parse(text)
             if renest:
                 self.ast = rebuild_through_api(self.ast)
+            if edit:
+                self.ast = edit_through_api(self.ast, edit)
         except Exception as e:
             raise Unparseable(type(e).__name__)
         try:
@@ -451,8 +479,14 @@ def run_one(seed, cfg, stats):
     shape = (pdesc['scope'][0], pdesc['pattern'][0], len(topics_of(pdesc['pattern'][1])), len(topics_of(pdesc['pattern'][2])),
              len(topics_of(pdesc['scope'][2])), pdesc['pattern'][3] is not None)
     renest = sim.coin('renest', 0.25)
+    edit = None
+    if sim.coin('edit', 0.2):
+        spare = [t for t in TOPICS if t not in topics_of(pdesc['scope'][1]) + topics_of(pdesc['scope'][2]) + topics_of(pdesc['pattern'][1]) + topics_of(pdesc['pattern'][2])]
+        if spare:
+            edit = {'topic': sim.pick('edit_topic', spare), 'pred': sim.pick('edit_pred', (None, '{ x > 0 }', '{ ok }', '{ y in {0, 1} }')),
+                    'where': sim.pick('edit_where', ('split', 'split', 'other'))}
     try:
-        judge = Judge(text, renest)
+        judge = Judge(text, renest, edit)
     except Unparseable as e:
         count('generated_text_rejected_by_parser')
         return None, {'text': text, 'shape': shape, 'digest': sim.digest(), 'refused': True}
@@ -477,7 +511,7 @@ def run_one(seed, cfg, stats):
             viol[0] = (r, len(bus.trace))
             bus.stop = True
 
-    bus = simulate(sim, pdesc, cfg, on_deliver)
+    bus = simulate(sim, pdesc, cfg, on_deliver, extra_topic=edit['topic'] if edit else None)
     if viol[0] is None:
         r = judge.check(bus.trace)  # at shutdown
         count('prefixes_checked')
@@ -495,14 +529,14 @@ def run_one(seed, cfg, stats):
         (rd, sp, sq), n = viol[0]
         v = {'class': 'not-equivalent', 'detail': 'reading %s: property %s, canonical form %s (%d parts) on a history of %d messages' % (
             rd, 'satisfied' if sp else 'violated', ['satisfied' if x else 'violated' for x in sq], len(sq), n),
-            'text': text, 'renest': renest, 'trace': trace_to_json(bus.trace[:n]), 'bus_log': [list(e) for e in bus.log][:60], 'reading': rd}
+            'text': text, 'renest': renest, 'edit': edit, 'trace': trace_to_json(bus.trace[:n]), 'bus_log': [list(e) for e in bus.log][:60], 'reading': rd}
         return v, info
     return None, info
 
 
-def judge_trace(text, trace, renest=False):
+def judge_trace(text, trace, renest=False, edit=None):
     """Replay path: literal property text + literal history; no PRNG."""
-    judge = Judge(text, renest)
+    judge = Judge(text, renest, edit)
     for n in range(1, len(trace) + 1):
         r = judge.check(trace[:n])
         if r is not None:
@@ -557,14 +591,14 @@ def minimise(v):
 
     def fails(sub):
         try:
-            r, _n = judge_trace(text, sub, v.get('renest', False))
+            r, _n = judge_trace(text, sub, v.get('renest', False), v.get('edit'))
         except Exception:
             return False
         return r is not None
 
     small = core.ddmin(trace, fails, budget=200)
     if fails(small):
-        r, n = judge_trace(text, small, v.get('renest', False))
+        r, n = judge_trace(text, small, v.get('renest', False), v.get('edit'))
         out = dict(v)
         out['trace'] = trace_to_json(small[:n])
         out['detail'] = 'reading %s: property %s, canonical form %s on a history of %d messages (minimised from %d)' % (
@@ -574,13 +608,13 @@ def minimise(v):
 
 
 def make_replay(v):
-    return {'property': PROP, 'class': v['class'], 'detail': v['detail'], 'text': v['text'], 'renest': v.get('renest', False), 'trace': v['trace'],
+    return {'property': PROP, 'class': v['class'], 'detail': v['detail'], 'text': v['text'], 'renest': v.get('renest', False), 'edit': v.get('edit'), 'trace': v['trace'],
             'bus_log_of_the_original_run': v.get('bus_log'), 'seed': v.get('seed'), 'pythonhashseed': os.environ.get('PYTHONHASHSEED'),
             'how_to_replay': '/venv/bin/python /verif/check.py C12 --replay <this file>'}
 
 
 def replay(doc):
-    r, n = judge_trace(doc['text'], trace_from_json(doc['trace']), doc.get('renest', False))
+    r, n = judge_trace(doc['text'], trace_from_json(doc['trace']), doc.get('renest', False), doc.get('edit'))
     if r is None:
         return None
     return {'class': 'not-equivalent', 'detail': 'reading %s: property %s, canonical form %s after %d messages' % (
